@@ -277,6 +277,14 @@ func (mm *Mem) targets(p *smt.Term, h *AccessHooks, what string) []Target {
 	if len(ok) == 0 {
 		mm.m.EndPath("no-target")
 	}
+	// several possible targets: fork on the guards so that every access (and
+	// its range check) happens only on the paths where it really takes place
+	for len(ok) > 1 {
+		if mm.m.Branch(ok[0].Guard) {
+			return ok[:1]
+		}
+		ok = ok[1:]
+	}
 	return ok
 }
 
